@@ -24,6 +24,8 @@ pub struct Gen {
     pub allow_native: bool,
     /// the number codec of the current run: restricts the vocabulary to what is exact under it
     pub mode: Codec,
+    /// size-ladder run: operands whose element count sits at 63/64/65 ... 1023/1024/1025 or a few thousand
+    pub ladder: bool,
 }
 
 fn oc(op: &str, a: usize, b: usize, dst: usize, ia: Vec<i64>) -> OpCall {
@@ -32,7 +34,7 @@ fn oc(op: &str, a: usize, b: usize, dst: usize, ia: Vec<i64>) -> OpCall {
 
 impl Gen {
     pub fn new(rng: StdRng, allow_iter: bool, maxdim: usize) -> Gen {
-        Gen { rng, pending: std::collections::VecDeque::new(), allow_iter, maxdim, vec_bias: false, allow_native: false, mode: Codec::Plain }
+        Gen { rng, pending: std::collections::VecDeque::new(), allow_iter, maxdim, vec_bias: false, allow_native: false, mode: Codec::Plain, ladder: false }
     }
 
     pub fn reset(&mut self) {
@@ -56,7 +58,10 @@ impl Gen {
     }
 
     pub fn data(&mut self, n: usize) -> Vec<i64> {
-        let class = self.ru(0, 9);
+        let mut class = self.ru(0, 9);
+        if self.ladder && (class == 6 || class == 8) {
+            class = 0; // thousands of entries: keep them small so that sums stay exact in single precision
+        }
         let eq = self.ri(-9, 9);
         (0..n)
             .map(|_| match class {
@@ -78,7 +83,31 @@ impl Gen {
             .collect()
     }
 
+    /// a shape whose number of entries crosses a power-of-two block size
+    fn ladder_shape(&mut self) -> (usize, usize) {
+        let n = self.pick(&[
+            63usize, 64, 65, 127, 128, 129, 255, 256, 257, 511, 512, 513, 1023, 1024, 1025, 1025, 1026, 1056, 1100, 2047, 2048, 2049,
+            2050, 3000, 4100, 1025, 1057, 2049,
+        ]);
+        let x = self.rng.gen_range(0.0..1.0);
+        if x < 0.3 {
+            return (1, n);
+        }
+        if x < 0.5 {
+            return (n, 1);
+        }
+        let divs: Vec<usize> = (2..n).filter(|d| n % d == 0).collect();
+        if divs.is_empty() {
+            return (1, n);
+        }
+        let r = self.pick(&divs);
+        (r, n / r)
+    }
+
     pub fn shape(&mut self) -> (usize, usize) {
+        if self.ladder {
+            return self.ladder_shape();
+        }
         let big = if self.p(0.1) { self.maxdim } else { 6.min(self.maxdim) };
         let x = self.rng.gen_range(0.0..1.0);
         if x < 0.08 {
@@ -166,7 +195,7 @@ impl Gen {
     }
 
     fn build_vec(&mut self, dst: usize, len: Option<usize>) -> OpCall {
-        let n = len.unwrap_or_else(|| self.ru(1, 8));
+        let n = len.unwrap_or_else(|| if self.ladder { self.ladder_shape().0.max(self.ladder_shape().1) } else { self.ru(1, 8) });
         if self.allow_native && self.p(0.3) {
             let via = self.pick(&["v_nat_reversed", "v_nat_strided", "v_nat_offset", "v_nat_reversed"]);
             let d = self.data(n);
@@ -313,6 +342,19 @@ impl Gen {
             "column_mean", "mean", "div_scalar", "div_scalar_mut", "v_sum", "v_norm1", "v_norm_inf", "v_norm_ninf", "v_mean",
             "v_div_scalar", "v_div_scalar_mut",
         ];
+        const LADDER: &[&str] = &[
+            "from_array", "from_vec", "from_2d_array", "new", "row_vector_from_array", "column_vector_from_vec", "v_from_array",
+            "nat_row_offset", "nat_col_offset", "nat_strided", "nat_reversed", "nat_t_owned", "v_nat_reversed", "v_nat_strided",
+            "v_nat_offset", "clone", "transpose", "reshape", "to_row_vector", "get_row", "from_row_vector", "negative", "abs",
+            "add_scalar", "mul_scalar", "add", "sub", "add_mut", "sub_mut", "copy_from", "shape", "sum", "min", "max", "norm1",
+            "norm_inf", "norm2sq", "mean", "column_mean", "argmax", "unique", "dot", "max_diff", "eq", "approximate_eq", "iter",
+            "iter_nth", "iter_skip", "iter_step", "iter_count", "iter_last", "iter_size_hint", "get_row_as_vec",
+            "get_col_as_vec", "v_sum", "v_mean", "v_dot", "v_norm1", "v_norm2sq", "v_to_vec", "v_unique", "v_add", "v_sub",
+            "v_clone", "v_len", "v_eq",
+        ];
+        if self.ladder {
+            return LADDER.contains(&c.op.as_str());
+        }
         match self.mode {
             Codec::Plain => true,
             Codec::Scale(_) => SCALE.contains(&c.op.as_str()),
@@ -323,18 +365,43 @@ impl Gen {
         }
     }
 
+    /// single-precision exactness of sums over many entries: every partial sum must stay below 2^24
+    /// (the magnitude bounds of the individual operations assume at most 144 entries)
+    fn exact_ok(&self, c: &OpCall, meta: &[Meta]) -> bool {
+        let m = |i: usize| if i >= 1 && i <= NREG { meta[i] } else { meta[0] };
+        let (a, b) = (m(c.a), m(c.b));
+        let n = (a.r * a.c) as f64;
+        let lim = 1.2e7;
+        match c.op.as_str() {
+            "sum" | "norm1" | "mean" | "column_mean" | "v_sum" | "v_norm1" | "v_mean" => a.maxabs * n <= lim,
+            "norm2sq" | "v_norm2sq" => a.maxabs * a.maxabs * n <= lim,
+            "dot" | "v_dot" => a.maxabs * b.maxabs.max(1.0) * n <= lim,
+            _ => true,
+        }
+    }
+
     pub fn step(&mut self, meta: &[Meta]) -> OpCall {
-        if self.mode == Codec::Plain {
-            return self.step_any(meta);
+        if self.mode == Codec::Plain && !self.ladder {
+            loop {
+                let c = self.step_any(meta);
+                if self.exact_ok(&c, meta) {
+                    return c;
+                }
+                self.pending.clear();
+            }
         }
         // rejection sampling: a plan (the returned call and everything it queued) must be exact under the codec
         loop {
             let was_pending = !self.pending.is_empty();
             let c = self.step_any(meta);
-            if was_pending {
+            if was_pending && self.exact_ok(&c, meta) {
                 return c; // part of a plan that was accepted as a whole
             }
-            if self.allowed(&c) && self.pending.iter().all(|p| self.allowed(p)) {
+            if was_pending {
+                self.pending.clear();
+                continue;
+            }
+            if self.allowed(&c) && self.exact_ok(&c, meta) && self.pending.iter().all(|p| self.allowed(p)) {
                 return c;
             }
             self.pending.clear();
@@ -352,6 +419,9 @@ impl Gen {
         }
         loop {
             let mut cat = self.ru(0, 99);
+            if self.ladder && self.p(0.5) {
+                cat = self.ru(70, 82); // reductions and statistics: where block-wise code paths live
+            }
             if self.vec_bias && self.p(0.6) {
                 cat = 99;
             }
@@ -557,9 +627,19 @@ impl Gen {
             "norm_half",
         ];
         if self.allow_iter {
-            ops.push("iter");
+            ops.extend_from_slice(&["iter", "iter_nth", "iter_skip", "iter_step", "iter_count", "iter_last", "iter_size_hint"]);
         }
         let op = self.pick(&ops);
+        if op.starts_with("iter_") {
+            let a = self.pick_m(meta, ANY)?;
+            let n = meta[a].r * meta[a].c;
+            let k = match op {
+                "iter_step" => self.ru(1, 4.min(n.max(1))),
+                "iter_nth" => self.ru(1, n + 1),
+                _ => self.ru(0, n + 1),
+            };
+            return Some(oc(op, a, 0, 0, vec![k as i64]));
+        }
         let bound = match op {
             "sum" | "norm1" | "max_diff" => MED,
             "norm2sq" => SMALL,
